@@ -7,7 +7,6 @@
  * (NNG_EMSGSIZE) and never delivered. */
 #ifndef VP_SOCKFDFRAME_SPEC_H
 #define VP_SOCKFDFRAME_SPEC_H
-#include "modules/aioiov/spec.h"
 
 #define TF_BE16(b) ((uint16_t) (((uint16_t) (b)[0] << 8) | (uint16_t) (b)[1]))
 #define TF_BE64(b)                                                            \
